@@ -106,6 +106,8 @@ pub fn draw_vars(r: &mut Rng, discovered: &[(String, Vec<String>)]) -> Vec<(Stri
             v.retain(|(n, _)| n != name);
         }
     }
+    // the order of the environment block (what `std::env::vars()` iterates in) is seeded, too
+    r.shuffle(&mut v);
     // the environment block sits above the stack: its size displaces every stack address
     let pad = *r.pick(&[0usize, 1, 7, 64, 333, 4096, 20000]);
     if pad > 0 {
